@@ -24,6 +24,8 @@ ASSUMPTIONS = [
     'monolithic multiplier/divider proofs (everything in-lined) only for small widths: cross-check of the stage-wise argument',
     'end-to-end formulas: fixed list x 4 declaration contexts (per-formula proofs, bounded in the formula); documented precedence/associativity: one pair per adjacent level of the table in doc/doc.md (list PRECEDENCE)',
     'numerals: digit-string code, exhaustive window only (bounded)',
+    'the undocumented substitution operator \\S is not claimed: it calls bdd.rename, which the installed dd managers do not have (AttributeError on both back ends)',
+    'real dd managers: the end-to-end formulas are also evaluated on dd.cudd and dd.autoref at every assignment (bounded); everything else runs on the abstract manager',
 ]
 EXPLANATION = (
     'Circuit generators of omega.logic.bitvector are re-extracted and run on opaque bit atoms; the strings they return are evaluated by the '
@@ -161,6 +163,14 @@ def families(tier, seed):
         def run(sh=sh, a=(d1, d2, fml)):
             return harness.verify(bn.h_two_contexts(*a), sh, kind='context')
         out.append(dict(name=f'operator definitions are per context: {fml} with {d2!r} after {d1!r} elsewhere', run=run, label='per-shape'))
+    # BOUNDED: the same formulas on the real dd managers (acceptance and meaning)
+    for cname in bn.CONTEXTS:
+        for be in (None, 'autoref'):
+            out.append(dict(name=f'end-to-end formulas on the real manager [{be or "default"}] [{cname}]',
+                            run=bn.real_manager_formulas(cname, be), label='bounded'))
+    for be in (None, 'autoref'):
+        out.append(dict(name=f'primed formulas on the real manager [{be or "default"}] [nonneg]',
+                        run=bn.real_manager_formulas('nonneg', be, primed=True), label='bounded'))
     for cname in ('nonneg', 'signed'):
         decl = bn.CONTEXTS[cname]
         sh = Shape(sys=decl, name=f'automaton {cname}')
